@@ -36,6 +36,10 @@ type GRPCServerMuxer struct {
 	addr   net.Addr
 	logger hclog.Logger
 
+	// ln is the listener the muxer accepts its single underlying connection
+	// on. The muxer owns it and closes it in Close.
+	ln net.Listener
+
 	sessionErrCh chan error
 	sess         *yamux.Session
 
@@ -49,6 +53,7 @@ func NewGRPCServerMuxer(logger hclog.Logger, ln net.Listener) *GRPCServerMuxer {
 	m := &GRPCServerMuxer{
 		addr:   ln.Addr(),
 		logger: logger,
+		ln:     ln,
 
 		sessionErrCh: make(chan error),
 
@@ -144,12 +149,20 @@ func (m *GRPCServerMuxer) Addr() net.Addr {
 }
 
 func (m *GRPCServerMuxer) Close() error {
+	// The muxer replaces the listener it wraps, so it is also responsible for
+	// closing it; for a Unix socket this is what removes the socket file.
+	lnErr := m.ln.Close()
+
 	session, err := m.session()
 	if err != nil {
 		return err
 	}
 
-	return session.Close()
+	if err := session.Close(); err != nil {
+		return err
+	}
+
+	return lnErr
 }
 
 func (m *GRPCServerMuxer) Enabled() bool {
